@@ -60,8 +60,10 @@ def replay(ctx, path):
     open(src, "w").write("From Coq Require Import List NArith ZArith String.\nImport ListNotations.\n"
                          "From Verif.Common Require Import Cas.\nFrom Verif.C19 Require Import Model Spec.\n"
                          "Definition c := " + coq_term + ".\n"
-                         "Eval vm_compute in (\"model_agrees, oracle_ok\", check_case c).\n"
-                         "Eval vm_compute in (\"first access the model cannot follow (index, model's request)\", first_bad c).\n")
+                         "(* (model agrees with the implementation, oracle accepts the implementation) *)\n"
+                         "Eval vm_compute in check_case c.\n"
+                         "(* first access the model of the FIXED code cannot follow: (index, request the model expected) *)\n"
+                         "Eval vm_compute in first_bad c.\n")
     ok, out = vlib.coqc(src, timeout=300)
     print(out[-6000:])
     return 0 if ok else 1
